@@ -99,4 +99,39 @@ PLANS = {
                        "stub": ["table source (sim database, scripted)", "sink (collecting)"]},
         "assumptions": ["input changelogs are valid, a record's event time equals its time column, no late records"],
     },
+    "C20": {
+        "level": "exploration",
+        "technique": "deterministic simulation: SQL max_diff_watermark over a scripted source with seeded arrival order (bounded reordering, duplicates); reference watermark generator stepped per event, exact output-sequence equality",
+        "level_text": ("seeded exploration of time sequences (in and out of order, duplicates, off-grid milliseconds, low-weight pre-1970 times, optional source watermarks) x max_diff x resolution; "
+                       "the emitted sequence of records and watermarks must equal the one a reference generator emits step by step"),
+        "level_note": "trusted: reference generator in /verif/sim/c20.go (rounding down = mathematical floor to a multiple of the resolution counted from the Unix epoch)",
+        "parts": [{"check": "c20", "quick": 100000, "thorough": 8000000}],
+        "rule": "each run draws max_diff, resolution, epoch range and a time sequence (<=10 records quick, <=40 thorough); non-trivial = >=2 messages; distinct = distinct (config+shape, full input) pairs",
+        "components": {"real": ["sqlparser/parser/typecheck of the table valued function", "table_valued_functions.MaxDiffWatermark"], "stub": ["table source (scripted)", "sink (collecting)"]},
+        "assumptions": ["times within the range representable as int64 nanoseconds"],
+    },
+    "C21": {
+        "level": "exploration",
+        "technique": "deterministic simulation: poll runs on the simulator's fake clock (synctest) against scripted snapshots with injected source stalls; tumble over seeded watermarked changelogs; per-round / per-record oracle",
+        "level_text": ("poll: seeded snapshots and injected source latency, k rounds on the simulated clock, each round must retract exactly the previous snapshot, emit the current one stamped with the round's "
+                       "simulated time and then a watermark, with round spacing = interval + stall; tumble: every record keeps its fields, sign and event time and gains an aligned window containing its time, "
+                       "watermarks pass unchanged in place; range: ascending, each integer once, also when a LIMIT stops it early (by-product: no schedule or clock dimension)"),
+        "level_note": "trusted: synctest fake clock; only the default 1s poll interval is reachable in this snapshot (poll_interval is declared as a DESCRIPTOR and cannot be planned), so the interval is not a simulated configuration",
+        "parts": [{"check": "c21", "quick": 30000, "thorough": 1500000}],
+        "rule": "each run draws one of tumble (window length, offset, changelog), range (start, end, limit) or poll (2-7 rounds of snapshots, stalls); non-trivial = >=2 messages/rounds; distinct = distinct (shape, content) pairs",
+        "components": {"real": ["table_valued_functions.Tumble/Range/Poll", "planner", "nodes.Limit"], "stub": ["table sources (scripted snapshots)", "sink", "wall clock (synctest fake clock)"]},
+        "assumptions": ["window lengths divide a day, so alignment does not depend on the time origin"],
+    },
+    "C18": {
+        "level": "exploration",
+        "technique": "deterministic simulation: watermark-monotonicity and late-record monitors attached to every streaming run (single operators, joins under seeded schedules, SQL group-by, max_diff_watermark->tumble->group-by->join pipelines) plus an exact event-time-buffer release model",
+        "level_text": ("seeded exploration with monitors on the output of every node kind and of small SQL pipelines: emitted watermarks never decrease; given inputs without late records no record is emitted with a non-zero event "
+                       "time at or below an already emitted watermark; the real EventTimeBuffer must emit exactly the specified sequence (each record once, unchanged, event-time order with arrival-order ties, before the first watermark "
+                       "at or above its time, rest at end of stream, zero-time records straight through)"),
+        "level_note": "trusted: the monitors and the buffer release model in /verif/sim/c18.go; inputs carry no late records by construction",
+        "parts": [{"check": "c18", "quick": 60000, "thorough": 4000000}],
+        "rule": "each run draws a scenario family (buffer / single operator / join under schedule / SQL group-by / SQL pipeline) and its history; non-trivial = >=2 input messages; distinct = distinct (shape, history+schedule) pairs",
+        "components": {"real": ["nodes.EventTimeBuffer", "every execution node of C15", "StreamJoin/OuterJoin", "max_diff_watermark", "tumble", "CustomTriggerGroupBy", "planner"], "stub": ["sources (scripted, gated)", "sink"]},
+        "assumptions": ["a row's event time equals its time column where it has one"],
+    },
 }
